@@ -9,6 +9,8 @@ import (
 	"runtime/debug"
 	"sort"
 	"strings"
+
+	"golang.org/x/tools/go/ssa"
 )
 
 const (
@@ -45,6 +47,7 @@ type Ctx struct {
 	Stats  map[string]int
 	curRule string
 	seen   map[string]bool
+	reach  map[*ssa.Function]bool
 }
 
 type anchorMissing struct{ what string }
